@@ -29,9 +29,13 @@ def classify(o, ev, org):
         return f"import-lost:{opn}", f"reference VM imports {ev[1]}.{ev[2]} but the decompile does not"
     sig = refvm.shallow_sig(ev)
     dec = [e for e in o.dec_log.events if e[0] == ev[0]]
+    if ev in dec:
+        what = {"call": "call", "setstate": "__setstate__ call", "pers": "persistent_load call"}.get(ev[0], ev[0])
+        return (f"call-multiplicity:{opn}",
+                f"the reference VM performs this {what} more often than it occurs in the decompile")
     if ev[0] != "import":
         eev = refvm.erase_modules(ev)
-        if any(refvm.erase_modules(d) == eev for d in dec):
+        if any(refvm.erase_modules(d) == eev and d != ev for d in dec):
             return "global-shadowed", ("the decompile refers to globals by bare name and the same attribute "
                                        "name is imported from two modules, so a call's callee/arguments "
                                        "resolve to the other module's attribute")
